@@ -1,9 +1,12 @@
 (** C02 - correspondence (model vs implementation, container by container) and the property oracle
     (documented selection + identity tags) evaluated on the implementation's outputs.
     Everything is instantiated at N: record cells are identity tags  r*64 + c  of the ORIGINAL
-    dataset, weights are written as 2*w = 2r+1, feature/target names "f<c>"/"t<c>" as c. *)
+    dataset, weights are written as 2*w = 2r+1, feature/target names "f<c>"/"t<c>" as c.
+    RNG-driven calls carry the words the generator returned; the model's indices are replayed from
+    them (C02/Rng.v), the oracle judges the output with the indices read back from the tags.
+    [CLay] cases carry the source as raw vectors + offsets + strides (C02/Layout.v). *)
 From Coq Require Import List NArith ZArith Bool Arith SpecFloat.
-From LinfaVerif Require Export Common.Num Common.B32 Common.Run C02.Model.
+From LinfaVerif Require Export Common.Num Common.B32 Common.Run C02.Model C02.Rng C02.Layout gen.C02_switch.
 Import ListNotations.
 
 Definition dsN := dset N N N N.
@@ -17,16 +20,24 @@ Definition affine (a b m : N) (x : N) : N := ((a * x + b) mod m)%N.
 Definition applyN : opN -> dsN -> option (list outN) := apply N N N N N.eqb ofb.
 Definition specN : opN -> dsN -> option (list (option N * dsN)) := spec_outs N N N N N.eqb ofb.
 
+Definition ldsetN := ldset N N N N.
+(* owned_split_raw_weights: read from the checked sources by tools/c02_layout_switch.py *)
+Definition apply_lN : opN -> ldsetN -> option (list outN) := apply_l N N N N N.eqb ofb owned_split_raw_weights.
+Definition logicalN : ldsetN -> option dsN := logical N N N N.
+
 Record step := mkStep {
-  st_op : opN;
+  st_op : opN;                 (* the call; for RNG-driven calls with the indices READ BACK from the result's identity tags *)
   st_keep : N;                 (* which result the history continues with *)
   st_panic : bool;             (* the call panicked *)
   st_same : bool;              (* the source dataset read back after the call is unchanged *)
+  st_req : option rreq;        (* RNG-driven calls: what was asked for ... *)
+  st_rng : list rword;         (* ... and every word the generator returned during the call *)
   st_outs : list outN }.
 
 Inductive case :=
 | CSeq (id : N) (wfsrc : bool) (src : dsN) (steps : list step)   (* wfsrc: the source is meant to be well-formed *)
-| CRatio (id : N) (n : N) (ratio_bits : Z) (panicked : bool) (n1 n2 : N).
+| CRatio (id : N) (n : N) (ratio_bits : Z) (panicked : bool) (n1 n2 : N)
+| CLay (id : N) (src : ldsetN) (steps : list step).               (* every step is a call on [src] as it lies in memory *)
 
 (** * comparisons *)
 Definition nat_eqb := Nat.eqb.
@@ -60,8 +71,25 @@ Fixpoint zipw {X Y V} (f : X -> Y -> V) (a : list X) (b : list Y) : list V :=
   match a, b with x :: a', y :: b' => f x y :: zipw f a' b' | _, _ => [] end.
 
 (** * correspondence of one step: the transliterated model against the implementation *)
-Definition corr_step (cur : dsN) (s : step) : N :=
-  match applyN (st_op s) cur, st_panic s with
+(* the call the model makes: for RNG-driven calls the drawn indices are REPLAYED from the recorded
+   words (C02/Rng.v), they are not taken from the implementation's output *)
+Definition model_op (cur : dsN) (s : step) : option opN :=
+  match st_req s with
+  | None => Some (st_op s)
+  | Some q => match replay N N N N q cur (st_rng s) with
+              | Some (o, []) => Some o
+              | _ => None       (* no run of rand's algorithms consumes exactly these words *)
+              end
+  end.
+(* 2048: words were recorded but the modelled algorithm does not consume exactly them *)
+Definition replay_code (cur : dsN) (s : step) : N :=
+  match st_req s, model_op cur s with
+  | Some _, None => if st_panic s then 0%N else flag (match st_rng s with [] => true | _ => false end) 2048
+  | _, _ => 0%N
+  end.
+
+Definition corr_cmp (mo : option (list outN)) (s : step) : N :=
+  match mo, st_panic s with
   | None, true => 0%N
   | None, false => 1%N                       (* the model panics, the implementation returned *)
   | Some _, true => 2%N                      (* the implementation panicked, the model returns *)
@@ -74,6 +102,10 @@ Definition corr_step (cur : dsN) (s : step) : N :=
                                  (flag (optN_eqb (o_label m) (o_label i)) 256
                                   + flag (counts_eqb (o_counts m) (o_counts i)) 512)%N) mo io)
   end.
+
+Definition corr_step (cur : dsN) (s : step) : N :=
+  N.lor (corr_cmp (match model_op cur s with Some o => applyN o cur | None => None end) s)
+        (replay_code cur s).
 
 (** * the property oracle *)
 Definition wfN : dsN -> bool := wf N N N N.
@@ -167,6 +199,28 @@ Definition ratio_check (n : N) (bits : Z) (panicked : bool) (n1 n2 : N) : bool :
   if N.ltb n m then panicked
   else negb panicked && N.eqb m n1 && N.eqb (n - m) n2.
 
+(** * calls on a dataset as it lies in memory (C02/Layout.v) *)
+Definition corr_lay (l : ldsetN) (s : step) : N :=
+  match logicalN l with
+  | None => 1024%N
+  | Some cur =>
+      N.lor (corr_cmp (match model_op cur s with Some o => apply_lN o l | None => None end) s)
+            (replay_code cur s)
+  end.
+
+(* a panic is excused where the layout alone forbids the call ([layout_rejects]: the documented
+   row-major requirement of the owned split, non-contiguous weights in with_labels, non-contiguous
+   targets in into_single_target); whatever is RETURNED must be the documented selection of the
+   logical contents *)
+Definition oracle_lay (l : ldsetN) (s : step) : N :=
+  match logicalN l with
+  | None => 8192%N
+  | Some cur =>
+      if negb (ok_l N N N N l && wfN cur && tags_ok cur) then 8192%N
+      else if st_panic s && layout_rejects N N N N (st_op s) l then flag (st_same s) 1024
+      else oracle_step cur s
+  end.
+
 Definition run_case (c : case) : verdict :=
   match c with
   | CSeq id wfsrc src steps =>
@@ -174,6 +228,8 @@ Definition run_case (c : case) : verdict :=
       (id, (co, (orc + flag (negb wfsrc || (wfN src && tags_ok src)) 8192)%N))     (* 8192: the generator itself is wrong *)
   | CRatio id n bits p n1 n2 =>
       let ok := ratio_check n bits p n1 n2 in (id, (flag ok 1, flag ok 4096))
+  | CLay id l steps =>
+      (id, (lor_list (map (corr_lay l) steps), lor_list (map (oracle_lay l) steps)))
   end.
 
 Definition run_cases (cs : list case) : list N := report (map run_case cs).
